@@ -19,6 +19,9 @@ static void setup(void) {
 	g_c8_blist.length = c08_stub_length; g_c8_blist.elementAt = c08_stub_elementAt;
 	s_a.hashChain = &g_c8_alist; s_b.hashChain = &g_c8_blist;
 	g_c8_a_len = nondet_size(); g_c8_b_len = nondet_size();
+#ifdef C8_MAXLEN     /* bounded twin: loops unwound, independent of the names / scopes of the function's locals (a loop contract names them) */
+	__CPROVER_assume(g_c8_a_len <= C8_MAXLEN && g_c8_b_len <= C8_MAXLEN);
+#endif
 	g_c8.a_calls = 0; g_c8.b_calls = 0; g_c8.eq_calls = 0; g_c8_in_eq_calls = 0;
 	spec_rl_init(&g_c8.rl);
 	g_c8_atokp = (KSI_DataHash *)&g_c8_atok; g_c8_btokp = (KSI_DataHash *)&g_c8_btok;
@@ -32,7 +35,11 @@ void harness(void) {
 	g_c8_arg_a = pa; g_c8_arg_b = pb;
 	res = ksi_CalendarHashChain_verifyRightLinkCompatibility(pa, pb);
 	if (res == KSI_OK) REACH("compatible");
+#ifndef C8_MAXLEN
 	if (res == KSI_OK && g_c8.rl.a_right > 2 && g_c8_a_len > g_c8.rl.a_right + 1) REACH("compatible, several right links, left links in between");
+#else
+	if (res == KSI_OK && g_c8.rl.a_right >= 2) REACH("compatible, two or more right links");
+#endif
 	if (res == KSI_INCOMPATIBLE_HASH_CHAIN && g_c8.rl.unequal) REACH("unequal right link");
 	if (res == KSI_INCOMPATIBLE_HASH_CHAIN && !g_c8.rl.unequal && g_c8.rl.a_right > g_c8.rl.b_right) REACH("b runs out of right links");
 	if (res == KSI_INCOMPATIBLE_HASH_CHAIN && g_c8.rl.b_right > g_c8.rl.a_right) REACH("b has a surplus right link");
